@@ -457,9 +457,82 @@ def connector_fields(ctx, E, crate):
     ctx.floor("MAPFIELDS", "permuted/delegated fields", n, 10)
 
 
+def maprewrite(ctx, E, crate):
+    """MAPREWRITE: inside a map_connection_ids method, a loop over `&mut` elements of an
+    id-carrying table that rewrites the element on one path rewrites it on every path of the
+    body. (An element that keeps its old number while the table it points into is permuted
+    selects another row afterwards; with all-distinct rows every element takes the rewriting
+    path, so tests with distinct rows cannot tell.)"""
+    n = 0
+    for p, f in sorted(crate.fns.items()):
+        if not f.body or not strip_generics(p).endswith("::map_connection_ids") or f.krate != "vibrato":
+            continue
+        fa = E.fa(p)
+        k = 0
+        for nb, nt in fa.calls():
+            if not any(strip_generics(x).endswith("::next") for x in callee_paths(nt)):
+                continue
+            sw = nt.get("t")
+            st = fa.term(sw) if sw is not None else None
+            if st is None or st["k"] != "switch":
+                continue
+            some_t = [tg for v, tg in zip(st["vals"], st["targets"]) if v == 1]
+            if not some_t:
+                continue
+            some_t = some_t[0]
+            # the element reference: `x = move (_n as Some).0` with a &mut type
+            elems = set()
+            for s in fa.blocks[some_t]["stmts"]:
+                if "rv" in s and s["rv"]["k"] == "use" and not s["lhs"]["p"]:
+                    pl = op_place(s["rv"]["op"])
+                    if pl and pl["l"] == nt["dest"]["l"] and pl["p"] and \
+                            fa.fn.locals[s["lhs"]["l"]]["ty"].startswith("&mut "):
+                        elems.add(s["lhs"]["l"])
+            if not elems:
+                continue
+            body = fa.reachable(some_t, avoid={nb})
+            # reborrows / copies of the element reference
+            changed = True
+            while changed:
+                changed = False
+                for b in body:
+                    for s in fa.blocks[b]["stmts"]:
+                        if "rv" not in s or s["lhs"]["p"] or s["lhs"]["l"] in elems:
+                            continue
+                        rv = s["rv"]
+                        src = op_place(rv["op"]) if rv["k"] == "use" else rv["place"] if rv["k"] == "ref" else None
+                        if src and src["l"] in elems and all(e == "*" for e in src["p"]) and \
+                                fa.fn.locals[s["lhs"]["l"]]["ty"].startswith("&mut "):
+                            elems.add(s["lhs"]["l"])
+                            changed = True
+            wblocks = set()
+            for b in body:
+                for s in fa.blocks[b]["stmts"]:
+                    if "lhs" in s and s["lhs"]["l"] in elems and s["lhs"]["p"] and s["lhs"]["p"][0] == "*":
+                        wblocks.add(b)
+            if not wblocks:
+                continue
+            n += 1
+            k += 1
+            # can the loop header be reached again from the Some arm without a write?
+            skip = nb in fa.reachable(some_t, avoid=wblocks) if some_t not in wblocks else False
+            names = fa.fn.local_names()
+            label = (f.j.get("impl_self_adt") or p.rsplit("::", 1)[0]).split("::")[-1] + "::map_connection_ids"
+            en = sorted(names.get(e, "_%d" % e) for e in elems)[0]
+            ctx.ob("MAPREWRITE", "%s|loop|%d" % (p, k - 1), not skip, fa.loc(nb),
+                   "%s: every path through the loop body rewrites the element `*%s`"
+                   % (label, en)
+                   if not skip else
+                   "%s: the loop rewrites `*%s` on some paths but leaves it unchanged on another: "
+                   "ids that share a row keep their old number while the table they index is "
+                   "renumbered" % (label, en))
+    ctx.floor("MAPREWRITE", "element-rewriting loops in map_connection_ids methods", n, 2)
+
+
 def run(ctx):
     crate = ctx.facts("A").lib
     E = Effects(crate)
+    maprewrite(ctx, E, crate)
     fa, ok_b, err_b, map_calls, stores = mapall(ctx, E, crate)
     maplen(ctx, E, crate, fa, ok_b, map_calls)
     mapcompose(ctx, E, crate, fa, ok_b, stores)
